@@ -120,8 +120,9 @@ CHECKS = {
              "and representation-level builders, compares both views of both nodes through every read form, and round-trips "
              "the representation through dag-cbor and dag-json.",
         design_ref="DESIGN.md section 4, C08",
-        note="Bounded catalogue and value domain; three known findings in bindnode's representation views (secondary "
-             "observations); generated code is compared under C13; trusted: TLC, harness.",
+        note="Bounded catalogue (46 types) and value domain plus seeded random type systems; the defects it found in bindnode's "
+             "views and builders are repaired (known_findings.json, 'fixed'); generated code is compared under C13; trusted: "
+             "TLC, harness.",
         technique="TLA+ schema semantics evaluated by TLC over enumerated types and inhabitants; every case replayed into the typed-node engine",
         engine="tlc+vh",
     ),
@@ -147,7 +148,8 @@ CHECKS = {
              "budget + input length; the other decoders and the walk of compiled selectors are checked for totality.",
         design_ref="DESIGN.md section 4, C10",
         note="Verdict/depth conformance is model-based; no-panic / terminates / allocation are observations (recover, "
-             "watchdog, MemStats) with constants fixed in advance; one known finding (ExploreRange makeslice panic).",
+             "watchdog, MemStats) with constants fixed in advance; the two panics it found (bare recursion edge, wide "
+             "ExploreRange) are repaired.",
         technique="TLA+ decoder machine and selector compile rules generating inputs and verdicts; totality and resource bounds measured on every input x configuration",
         engine="tlc+vh",
     ),
@@ -188,8 +190,9 @@ CHECKS = {
              "every C08 inhabitant and C09 mutant with the verdicts and views Schema.tla prescribes -- the same reference "
              "bindnode is compared to, so observational equivalence of the two engines is decided three-way.",
         design_ref="DESIGN.md section 4, C13",
-        note="16-20 generated types per run; enum / any / listpairs are outside the generator; three known findings in "
-             "generated code; trusted: TLC, go build, harness.",
+        note="20+ generated catalogue types plus random type systems per run, two generator configurations; enum / any / "
+             "listpairs are outside the generator; the defects found in generated code are repaired (known_findings.json, "
+             "'fixed'); trusted: TLC, go build, harness.",
         technique="TLC-enumerated type systems fed to the code generator; generated code replayed against the TLA+ schema semantics (three-way with bindnode)",
         engine="tlc+vh",
     ),
